@@ -77,6 +77,8 @@ def names(case, scheme="plain"):
         return [0, "0", 1][:v], TER_NAMES[:t]
     if scheme == "mixedter":  # terminal values of different types with one spelling
         return VAR_NAMES[:v], [0, "0", 1][:t]
+    if scheme == "mixedpda":  # two terminals with one spelling + variables named like the stack symbols to_pda invents
+        return ["S", "##TERM#0", "###TERM#0"][:v], [0, "0", 1][:t]
     if scheme == "dollar":    # a variable and a terminal spelt like the end marker of the LL(1) parser
         return ["S", "$", "#"][:v], ["a", "$", "b"][:t]
     if scheme == "lower":
